@@ -10,6 +10,7 @@
 #include <stdlib.h>
 #include <sys/select.h>
 #include <assert.h>
+#include <algorithm>
 
 Run *g_run = nullptr;
 AllocLedger g_alloc;
@@ -89,6 +90,7 @@ static void cb_dnsrec(void *arg, ares_status_t st, size_t timeouts, const ares_d
   if (rec) { d.has = true; ares_to_ref(rec, d.msg); }
   a->run->complete(a->token, (int)st, (int)timeouts, d);
 }
+void (*g_cb_dnsrec)(void *, ares_status_t, size_t, const ares_dns_record_t *) = cb_dnsrec;
 static void cb_legacy(void *arg, int st, int timeouts, unsigned char *abuf, int alen) {
   CbArg *a = (CbArg *)arg;
   Delivered d;
@@ -215,9 +217,10 @@ void Run::setup_world() {
   for (auto &e : cfg.env) W.env[e.first] = e.second;
 }
 
-static std::string servers_csv(const std::vector<ServerSpec> &sv) {
+static std::string servers_csv(const std::vector<ServerSpec> &all, const std::vector<int> &idx) {
   std::string csv;
-  for (auto &s : sv) {
+  for (int i : idx) {
+    const ServerSpec &s = all[(size_t)i];
     if (!csv.empty()) csv += ",";
     bool v6 = s.ip.find(':') != std::string::npos;
     if (s.udp_port == s.tcp_port) {
@@ -289,14 +292,76 @@ bool Run::make_channel(int idx) {
   if (!cfg.local_dev.empty()) ares_set_local_dev(c.ch, cfg.local_dev.c_str());
   if (cfg.local_ip4) ares_set_local_ip4(c.ch, cfg.local_ip4);
   if (cfg.local_ip6) { unsigned char ip6[16] = {0x20, 0x01, 0x0d, 0xb8}; ip6[15] = 0x77; ares_set_local_ip6(c.ch, ip6); }
+  if (idx == 0) {
+    active.clear();
+    int na = (int)cfg.knob("nactive", (int64_t)cfg.servers.size());
+    if (na < 1) na = 1;
+    for (int i = 0; i < (int)cfg.servers.size() && i < na; i++) active.push_back(i);
+    max_active = (int)active.size();
+  }
   if (cfg.server_source == 0 && !cfg.servers.empty()) {
     W.api_seq++;
-    std::string csv = servers_csv(cfg.servers);
+    std::string csv = servers_csv(cfg.servers, active);
     int r2 = ares_set_servers_ports_csv(c.ch, csv.c_str());
     if (r2 != ARES_SUCCESS) note("set_servers_failed");
   }
   if (!cfg.sortlist.empty()) ares_set_sortlist(c.ch, cfg.sortlist.c_str());
+  if (idx == 0) read_effective();
   return true;
+}
+
+void Run::read_effective() {
+  Chan &c = chans[0];
+  if (!c.alive) return;
+  long t = 0, to = 0, mx = 0, nd = 1, rot = 0;
+  if (peek_channel_opts(c.ch, &t, &to, &mx, &nd, &rot)) {
+    eff_tries = (int)t; eff_timeout_ms = (int)to; eff_maxtimeout_ms = (int)mx; eff_ndots = (int)nd; eff_rotate = (int)rot;
+  } else {
+    // black-box fallback: what the application set, else the documented defaults
+    eff_tries = cfg.tries > 0 ? cfg.tries : 3;
+    eff_timeout_ms = cfg.timeout_ms > 0 ? cfg.timeout_ms : 2000;
+    eff_maxtimeout_ms = cfg.maxtimeout_ms > 0 ? cfg.maxtimeout_ms : 0;
+    eff_ndots = cfg.ndots >= 0 ? cfg.ndots : 1;
+    eff_rotate = cfg.rotate == 1;
+  }
+}
+
+struct SrvChange { int64_t t; bool changed; };
+
+void Run::set_servers_variant(int variant) {
+  Chan &c = chans[0];
+  if (!c.alive || cfg.servers.empty()) return;
+  std::vector<int> nw = active;
+  int n = (int)cfg.servers.size();
+  switch (variant % 6) {
+    case 0: break;                                                   // identical list
+    case 1: if (nw.size() > 1) std::swap(nw[0], nw[nw.size() - 1]); break;   // reorder
+    case 2: if (nw.size() > 1) nw.erase(nw.begin() + (variant / 6) % (int)nw.size()); break;   // remove one
+    case 3: { int add = (variant / 6) % n; bool have = false; for (int i : nw) have |= i == add; if (!have) nw.push_back(add); break; }   // add one
+    case 4: { nw.clear(); int k = 1 + (variant / 6) % n; for (int i = 0; i < k; i++) nw.push_back((i + variant / 36) % n); std::sort(nw.begin(), nw.end()); nw.erase(std::unique(nw.begin(), nw.end()), nw.end()); break; }   // replace
+    case 5: if (nw.size() > 1) { int f = nw[0]; nw.erase(nw.begin()); nw.push_back(f); } break;   // rotate
+  }
+  bool changed = nw != active;
+  W.api_seq++;
+  std::string csv = servers_csv(cfg.servers, nw);
+  int rc = ares_set_servers_ports_csv(c.ch, csv.c_str());
+  note(changed ? "set_servers_changed" : "set_servers_same");
+  W.mix_shape(0x5E70 + (changed ? 1 : 0));
+  if (rc == ARES_SUCCESS) {
+    active = nw;
+    if ((int)active.size() > max_active) max_active = (int)active.size();
+    srv_list_events.push_back({W.now_us, changed ? 1 : 0, W.seq});
+  } else note("set_servers_failed");
+}
+
+void Run::do_reinit(int chan) {
+  Chan &c = chans[(size_t)chan];
+  if (!c.alive) return;
+  W.api_seq++;
+  note("reinit");
+  int rc = ares_reinit(c.ch);
+  if (rc == ARES_SUCCESS) srv_list_events.push_back({W.now_us, 2, W.seq});
+  read_effective();
 }
 
 std::string Run::compose_name(int token, int name_sel, int kind) {
@@ -499,6 +564,7 @@ void Run::process_ready(int chan, int subset_sel, bool skip_non_fd) {
   W.api_seq++;
   if (c.pending_write) { c.pending_write = 0; ares_process_pending_write(c.ch); note("process_pending_write"); }
   int style = cfg.loop_style;
+  if (style == 1 && W.next_fd >= FD_SETSIZE) { style = 0; note("fdset_style_abandoned"); }
   if (style == 0) {
     std::vector<ares_fd_events_t> ev;
     for (auto &p : c.interest) {
@@ -594,7 +660,7 @@ void Run::check_invariants(const char *where) {
       if (has == 0 && r && which == 0) violate("C07", "hint_without_deadline", "ares_timeout returned a value without maxtv although no query has a deadline");
     }
     // ---- C10: legacy descriptor sets vs open sockets ----
-    {
+    if (W.next_fd < FD_SETSIZE) {   // fd_set based calls are only legal while every descriptor is below FD_SETSIZE
       fd_set rs, ws; FD_ZERO(&rs); FD_ZERO(&ws);
       int nfds = ares_fds(c.ch, &rs, &ws);
       bool active = ares_queue_active_queries(c.ch) > 0;
@@ -637,7 +703,7 @@ void Run::exec_step(const Step &s) {
   W.mix_shape(0x5700 + (uint64_t)s.k);
   int chan = 0;
   switch (s.k) {
-    case S_REQ: submit((int)(s.a % K_NKINDS), (int)s.b, (int)s.c, (int)(s.d % R_NREACT), (int)(s.d / R_NREACT), false, chan, (int)(s.d / (R_NREACT * K_NKINDS) + s.c / 7)); break;
+    case S_REQ: if (pre_req && pre_req(*this, s)) break; submit((int)(s.a % K_NKINDS), (int)s.b, (int)s.c, (int)(s.d % R_NREACT), (int)(s.d / R_NREACT), false, chan, (int)(s.d / (R_NREACT * K_NKINDS) + s.c / 7)); break;
     case S_CANCEL: do_cancel(chan); break;
     case S_STALL: W.now_us += (int64_t)s.a * 1000; W.deliver_due(); note("stall"); break;
     case S_ADV: {
@@ -719,6 +785,13 @@ void Run::exec_step(const Step &s) {
       W.bump("tcp_chunk_pattern");
       break;
     }
+    case S_SETSRV: set_servers_variant((int)s.a); break;
+    case S_REINIT: do_reinit(chan); break;
+    case S_SORTLIST: {
+      static const char *sl[] = {"10.0.0.0/8", "10.1.0.0/255.255.0.0 10.0.0.0/8", "fd00::/8", "192.0.2.0/24 10.128.0.0/9", "10.0.0.0/9"};
+      if (chans[0].alive) { W.api_seq++; ares_set_sortlist(chans[0].ch, sl[(size_t)s.a % 5]); note("set_sortlist"); }
+      break;
+    }
     default:
       if (extra_step) extra_step(*this, s);
       break;
@@ -781,6 +854,7 @@ void Run::final_oracles() {
 void Run::execute() {
   g_run = this;
   setup_world();
+  W.on_tx = [this](Tx &t) { for (auto &f : tx_obs) f(*this, t); };
   g_alloc.reset(); g_alloc.active = true;
   ares_library_init_mem(ARES_LIB_INIT_ALL, l_malloc, l_free, l_realloc);
   if (make_channel(0)) {
